@@ -960,6 +960,67 @@ void vf_slice_1()
 #else
   (void)mkset;
 #endif
+  // an element type that is copyable AND whose move constructor is not declared noexcept (most hand-written classes,
+  // std::deque in libstdc++): pop_back / pop_front still MOVE the popped element out - "never copies an element"
+  {
+    struct counted
+    {
+      int payload;
+      static int &copies()
+      {
+        static int n = 0;
+        return n;
+      }
+      static int &moves()
+      {
+        static int n = 0;
+        return n;
+      }
+      explicit counted(int p) : payload(p) {}
+      counted(counted const &o) : payload(o.payload) { ++copies(); }
+      counted(counted &&o) : payload(o.payload) // deliberately not noexcept
+      {
+        o.payload = -1;
+        ++moves();
+      }
+      counted &operator=(counted const &o)
+      {
+        payload = o.payload;
+        ++copies();
+        return *this;
+      }
+      counted &operator=(counted &&o)
+      {
+        payload = o.payload;
+        o.payload = -1;
+        ++moves();
+        return *this;
+      }
+    };
+    static_assert(!std::is_nothrow_move_constructible_v<counted> && std::is_copy_constructible_v<counted>);
+    observed_scope const os;
+    for (unsigned back = 0; back < 2; ++back)
+      for (unsigned n = 0; n < 4; ++n)
+        run_case(std::string("container::pop_") + (back ? "back" : "front") + "<deque<element with a throwing move constructor>>", "subject", "n=" + std::to_string(n),
+                 [&](case_t &cx) {
+                   std::deque<counted> d;
+                   std::vector<int> all;
+                   for (unsigned i = 0; i < n; ++i)
+                   {
+                     all.push_back(cx.fresh());
+                     d.emplace_back(all.back());
+                   }
+                   counted::copies() = 0;
+                   counted::moves() = 0;
+                   auto const r = back ? fcppt::container::pop_back(d) : fcppt::container::pop_front(d);
+                   std::string const key = std::string("container::pop_") + (back ? "back" : "front") + "<deque<element with a throwing move constructor>>";
+                   if (counted::copies() != 0)
+                     vf::violation(key + "/popped-element-copied", "mismatch", std::to_string(counted::copies()) + " copies of an element (moves: " + std::to_string(counted::moves()) + ")");
+                   if (r.has_value() != (n > 0) || (n > 0 && r.get_unsafe().payload != (back ? all.back() : all.front())) || d.size() != (n > 0 ? n - 1 : 0))
+                     vf::violation(key + "/result", "mismatch", "");
+                   VF_COUNT("pop/element-with-a-throwing-move-constructor");
+                 });
+  }
   t_pop<std::vector<E>, true>("vector");
   t_pop<std::deque<E>, true>("deque");
   t_pop<std::list<E>, true>("list");
